@@ -71,6 +71,11 @@ def generate(ck):
             for seq in itertools.product(("simA", "simN", "rf", "interp"), repeat=n):
                 if "simN" in seq and "simA" in seq:
                     descs.append({"cls": cls, "cfg": 0, "seq": list(seq)})
+    for cls in ("ideal", "single"):
+        for n in range(2, 4):
+            for seq in itertools.product(("simA", "simAs", "rf", "rfd", "interp"), repeat=n):
+                if "simAs" in seq and "simA" in seq:
+                    descs.append({"cls": cls, "cfg": 0, "seq": list(seq)})
     # "grid C, other length" instantiated as a grid with ONE time stamp (the time loop never runs)
     for cls in ("ideal", "single"):
         for n in range(2, 4):
@@ -158,6 +163,12 @@ def _apply(obj, op, cfg, held=None):
                 return ("ok", None)
             if op == "sim1":
                 obj.simulate(np.array([0.25]))
+                return ("ok", None)
+            if op == "simAs":
+                # report dates only: a strict sub-sampling of grid A (every stamp occurs in A, first stamp
+                # equal, other length) - a different grid, to be marched with its own steps
+                a = _grid(c["A"])
+                obj.simulate(a[:: max(2, len(a) // 6)].copy())
                 return ("ok", None)
             if op == "simN":
                 obj.simulate(_grid(c["A"]) * (1 + 4e-6))
